@@ -345,6 +345,26 @@ def run_drawn(case):
             if len(E) != N * d + 1 or any(not (1 <= a <= N and 1 <= b <= N) for a, b in E):
                 raise Violation("{} {}: the drawn graph has {} edges, documented regular({},{},{}) plus one edge".format(tool, args, len(E), N, N, d))
             Flib = cnfgen.SubsetCardinalityFormula(catalog.G_bip({'L': N, 'R': N, 'edges': [list(e) for e in E]}), p['equal'], formula_class=cls)
+        elif kind == 'tseitin-random-spread':
+            # 'random' leaves the total charge to chance: over 16 seeds both parities must turn up, and the charge vectors must
+            # not all be equal (a pattern that silently behaves like randomodd / randomeven / a fixed vector shows here)
+            gtoks = catalog.simple_tokens(ctx, p['G'])
+            n = p['G']['n']
+            E0 = sorted(tuple(e) for e in p['G']['edges'])
+            seen = set()
+            for sd in range(16):
+                F = cli.build(tool, ['--seed', sd, 'tseitin', 'random'] + gtoks)
+                dec = names.group(names.decode(F), 'E')
+                rows = set(frozenset(([l for _, l in r[:-2]] if cls is OPB else r)) for r in F)
+                ch = tuple(1 if frozenset(dec[e] for e in E0 if v in e) in rows else 0 for v in range(1, n + 1))
+                seen.add(ch)
+            par = set(sum(c) % 2 for c in seen)
+            if par != {0, 1}:
+                raise Violation("{} tseitin random on {}: over the seeds 0..15 the total charge is always {}".format(
+                    tool, p['G'], 'odd' if par == {1} else 'even'))
+            if len(seen) < 4:
+                raise Violation("{} tseitin random on {}: only {} different charge vectors over 16 seeds".format(tool, p['G'], len(seen)))
+            return Outcome(labels=[tool, kind], nontrivial=True)
         else:   # stone --sparse
             args = ['stone', p['s']] + catalog.dag_tokens(ctx, p['D']) + ['--sparse', p['deg']]
             F = cli.build(tool, ['--seed', seed] + args)
@@ -360,7 +380,7 @@ def run_drawn(case):
 
 @st.composite
 def strat_drawn(draw):
-    kind = draw(st.sampled_from(['php', 'tseitinNd', 'tseitin-random', 'opNd', 'subsetcardNd', 'stone']))
+    kind = draw(st.sampled_from(['php', 'tseitinNd', 'tseitin-random', 'opNd', 'subsetcardNd', 'stone', 'tseitin-random-spread']))
     B = st.booleans()
     if kind == 'php':
         n = draw(st.integers(2, 5))
@@ -370,6 +390,11 @@ def strat_drawn(draw):
         p = {'N': N, 'd': d}
     elif kind == 'tseitin-random':
         p = {'G': draw(catalog.simple_g(1, 7, 16)), 'charge': draw(st.sampled_from(['random', 'randomodd', 'randomeven']))}
+    elif kind == 'tseitin-random-spread':
+        # graphs whose vertices have pairwise different sets of incident edges, so that the charges can be read off the clauses
+        p = {'G': draw(st.sampled_from([{'n': 4, 'edges': [[1, 2], [1, 3], [1, 4], [2, 3], [2, 4], [3, 4]], 'as': 'cnfgen'},
+                                         {'n': 5, 'edges': [[1, 2], [2, 3], [3, 4], [4, 5], [1, 5]], 'as': 'cnfgen'},
+                                         {'n': 6, 'edges': [[1, 2], [2, 3], [3, 4], [4, 5], [5, 6], [1, 6], [1, 4]], 'as': 'cnfgen'}]))}
     elif kind == 'opNd':
         N, d = draw(st.sampled_from([(4, 2), (4, 3), (5, 2), (3, 2), (6, 3), (5, 4)]))
         p = {'N': N, 'd': d, 'flag': draw(st.sampled_from(catalog.OPFLAGS)), 'plant': draw(B)}
@@ -544,8 +569,8 @@ SUBCHECKS = [
              rule="pitfall, randkcnf, randkxor with --seed s versus the library generator after random.seed(s), both tools; oracle: identical formulas",
              required_labels=['pitfall', 'randkcnf', 'randkxor', 'pbgen']),
     SubCheck('drawn', run_drawn, strategy=strat_drawn, quick=300, thorough=12000,
-             rule="php M N D, tseitin N d, tseitin random|randomodd|randomeven G, op N d, subsetcard N d, stone s D --sparse d; oracle: the graph / charges recovered from names and clauses have the documented shape (regularity, sizes, parity) and the formula equals the library formula on them",
-             required_labels=['php', 'tseitinNd', 'tseitin-random', 'opNd', 'subsetcardNd', 'stone']),
+             rule="php M N D, tseitin N d, tseitin random|randomodd|randomeven G, op N d, subsetcard N d, stone s D --sparse d; 'tseitin random G' over the seeds 0..15 (both parities of the total charge and at least 4 different charge vectors must occur); oracle: the graph / charges recovered from names and clauses have the documented shape (regularity, sizes, parity) and the formula equals the library formula on them",
+             required_labels=['php', 'tseitinNd', 'tseitin-random', 'opNd', 'subsetcardNd', 'stone', 'tseitin-random-spread']),
     SubCheck('text', run_text, strategy=strat_text, enumerate_cases=enum_text, quick=500, thorough=20000,
              rule="cnfgen -q/-v/--varnames on DIMACS output, 'cnfgen dimacs' (file and stdin), kthlist2pebbling (stdin and -i, with a transformation) versus 'cnfgen peb', cnfshuffle with all permutations off; the stdin-reading ones also as real processes fed through a pipe (enumerated); oracle: the printed clauses are the library formula, -q prints no comment line, verbose prints the header, --varnames lists the names",
              required_labels=['options', 'k2p', 'dimacs', 'cnfshuffle', '-q', '--varnames', 'stdin', 'file']),
